@@ -7,6 +7,7 @@ import (
 	"reflect"
 	"sort"
 	"strings"
+	"sync/atomic"
 
 	"github.com/cuteLittleDevil/go-jt808/protocol/jt808"
 	"github.com/cuteLittleDevil/go-jt808/protocol/model"
@@ -298,6 +299,8 @@ func c08ItemsBytes(items []c08Item) []byte {
 }
 
 // c08Check parses body through the carrier and compares with blk/items. expectReject: some item has an impossible length.
+var c08PresetStride atomic.Int32
+
 func c08Check(carrier string, body, blk []byte, items []c08Item, expectReject bool) string {
 	switch carrier {
 	case "0200":
@@ -315,7 +318,28 @@ func c08Check(carrier string, body, blk []byte, items []c08Item, expectReject bo
 		if w := c08Base(&t.T0x0200LocationItem, blk); w != "" {
 			return w
 		}
-		return c08Additions(t.Additions, items)
+		if w := c08Additions(t.Additions, items); w != "" {
+			return w
+		}
+		// a receiver that was filled in by hand before (the words of THIS body, or other ones, without their flag details — the
+		// way handler prototypes are written) must come out of Parse exactly like a fresh one
+		if st := c08PresetStride.Load(); st > 1 && (ref.BE32(blk[0:])^ref.BE32(blk[4:]))%uint32(st) != 0 {
+			return "" // exhaustive 2^32 sweeps: every st-th word only
+		}
+		for _, same := range []bool{true, false} {
+			pre := model.T0x0200{}
+			pre.AlarmSign, pre.StatusSign = ref.BE32(blk[0:]), ref.BE32(blk[4:])
+			if !same {
+				pre.AlarmSign, pre.StatusSign = ^pre.AlarmSign, pre.StatusSign^0x00010001
+			}
+			if err := pre.Parse(c08Msg(body)); err != nil {
+				return "reject|well-formed location body rejected|0200"
+			}
+			if w := c08Base(&pre.T0x0200LocationItem, blk); w != "" {
+				return w + " (receiver pre-set by hand)"
+			}
+		}
+		return ""
 	case "0704":
 		// the batch is  [block+items, bare block, block+items]  (c08Bodies): every item must decode from its own bytes
 		var t model.T0x0704
@@ -353,7 +377,18 @@ func c08Check(carrier string, body, blk []byte, items []c08Item, expectReject bo
 		if err := t.Parse(c08Msg(body)); err != nil {
 			return "reject|well-formed location body rejected|0801"
 		}
-		return c08Base(&t.T0x0200LocationItem, blk)
+		if w := c08Base(&t.T0x0200LocationItem, blk); w != "" {
+			return w
+		}
+		pre := model.T0x0801{}
+		pre.AlarmSign, pre.StatusSign = ref.BE32(blk[0:]), ref.BE32(blk[4:])
+		if err := pre.Parse(c08Msg(body)); err != nil {
+			return "reject|well-formed location body rejected|0801"
+		}
+		if w := c08Base(&pre.T0x0200LocationItem, blk); w != "" {
+			return w + " (receiver pre-set by hand)"
+		}
+		return ""
 	}
 	return "harness|unknown carrier"
 }
